@@ -26,6 +26,13 @@ THEOREMS_KERNEL = ["Pt.eval_congr", "Pt.evalList_congr", "Pt.execStmt_frame", "P
                    "Pt.checked_kernel_schedule_independent", "Pt.checked_kernel_any_schedule"]
 
 
+# the statement generator model (lean/PtModel/LoopyGen.lean), tied to the real generator statement by statement
+# (batch lean-statement-generator-model-vs-real-kernel)
+THEOREMS_GEN = ["Pt.LG.loopygen_sound_partial", "Pt.LG.loopygen_checks_partial",
+                "Pt.LG.loopygen_sound_partial_any_schedule", "Pt.LG.fragment_check_sound",
+                "Pt.LG.loopygen_sound_fragment", "Pt.LG.gen_sound", "Pt.LG.execStmt_store"]
+
+
 def _prep_dedup(expr):
     import pytato as pt
     return pt.transform.deduplicate(expr)
@@ -469,6 +476,7 @@ def run(ctx: common.Ctx):
     ]
     ctx.lean_obligations("PtProofs.C02", THEOREMS_A)
     ctx.lean_obligations("PtProofs.C01", THEOREMS_KERNEL)
+    ctx.lean_obligations("PtProofs.C01GenChecks", THEOREMS_GEN)
     try:
         from . import c01_kernel
     except ImportError:
@@ -522,6 +530,10 @@ def run(ctx: common.Ctx):
     ctx.note_batch("output-order-independence", m, dis2, exhaustive=False, text_compared=n_text)
     if c01_kernel is not None:
         c01_kernel.run_kernel_model(ctx, progs, results)
+    # the Lean model of the statement generator vs the real kernels (program stream + a sample of the API table)
+    from . import c01_gen
+    c01_gen.run_gen_model(ctx, "loopy", list(c01_gen.cases_from_results(progs, results, _prep_dedup))
+                          + list(c01_gen.api_cases(ctx, 1 if ctx.thorough else 4)))
     batch_special_values(ctx)
     batch_special_value_table(ctx)
     batch_api_table(ctx)
